@@ -669,6 +669,9 @@ impl<'a> Exec<'a> {
                     if matches!(op, Op::Put(..)) && eff_ttl.is_some() {
                         obs.count("probe.put_with_default_ttl");
                     }
+                    if ttl.is_some() && self.m.live.get(&key).is_some_and(|e| e.ttl == ttl && e.value == v.to_value() && e.exp_lo.is_some_and(|x| x > tmax)) {
+                        obs.count("probe.live_entry_put_again_with_the_same_value_and_ttl");
+                    }
                     self.m.live.insert(key, Entry { value: v.to_value(), exp_lo: lo, exp_hi: hi, ttl, maybe_removed: false });
                 }
                 Op::Update(k, v) => {
@@ -1125,13 +1128,24 @@ impl World for StoreWorld {
         let ttls = [0u64, 1, 2, 5];
         let mut ops = Vec::new();
         let mut last_ttl = 2u64;
+        let mut last_put_ttl: Option<Op> = None;
         for _ in 0..n {
             let w = rng.weighted(&[14, 10, 6, 5, 3, 22, 12, 10, 4, 6, 5]);
             let op = match w {
                 0 => Op::Put(rng.usize(3), gen_val(rng, 0)),
                 1 => {
-                    last_ttl = *rng.pick(&ttls);
-                    Op::PutTtl(rng.usize(3), gen_val(rng, 0), last_ttl)
+                    // one put_with_ttl in three repeats the previous one exactly — same key, value and TTL, as
+                    // an operator does that writes its unchanged state again on every event; the entry's
+                    // lifetime starts afresh all the same
+                    match &last_put_ttl {
+                        Some(prev) if rng.chance(1, 3) => prev.clone(),
+                        _ => {
+                            last_ttl = *rng.pick(&ttls);
+                            let op = Op::PutTtl(rng.usize(3), gen_val(rng, 0), last_ttl);
+                            last_put_ttl = Some(op.clone());
+                            op
+                        }
+                    }
                 }
                 2 => Op::Update(rng.usize(3), gen_val(rng, 0)),
                 3 => Op::Delete(rng.usize(3)),
